@@ -320,4 +320,93 @@ def run(tier):
                          "(typestates %s)" % {k[1]: v for k, v in state.items() if k[0] == "E"},
                          file=fn.relfile, line=ln, path=ps.describe_path(ps.path_to(cur_in[0], cur_in[1])))
         res.instance("C11.R4", "psDhGenSharedSecret: pstm_exptmod call (%d valuations)" % n, bad is None, finding=fd)
+    rule_R5(res, prog)
     return res.finish()
+
+
+def rule_R5(res, prog):
+    """RSASSA-PSS (RFC 8017 9.1): emBits = modBits - 1; the leftmost 8*emLen - emBits bits of the encoded message are
+    cleared by the encoder and must be zero for the verifier.  Every `0xFF >> E` in the PSS encode / decode functions
+    must have E == 8*emLen - modBits + 1 as a polynomial over (emLen local, modBits parameter) - the sibling
+    implementations must agree with each other and with the RFC (an off-by-one either rejects valid signatures of
+    other stacks or accepts encodings with the top bit set)."""
+    from sa import cfgutil as cu
+    from sa.pp import pp
+    res.rule("C11.R5", "PSS top-bit mask: every 0xFF >> E in the PSS encode/decode functions has E == 8*emLen - (modBits - 1)")
+    n = 0
+    for fn in sorted(prog.functions.values(), key=lambda f: f.qname):
+        if "Pss" not in fn.name or not fn.relfile.startswith("crypto/"):
+            continue
+        rd = None
+        # emLen local: defined as (modBits >> 3) + (modBits & 7 ? 1 : 0); modBits: the parameter it is computed from
+        emlen = None
+        modbits = None
+        for b, ln, nd in fn.nodes():
+            if nd.get("k") == "bin" and nd["op"] == "=":
+                l = strip(nd["l"])
+                r = strip(nd["r"])
+                if l is not None and l.get("k") == "var" and r is not None and r.get("k") == "bin" and r["op"] == "+":
+                    a = strip(r["l"])
+                    if a is not None and a.get("k") == "bin" and a["op"] == ">>" and (strip(a["r"]) or {}).get("v") == 3 \
+                            and (strip(a["l"]) or {}).get("sc") == "p":
+                        emlen = l["id"]
+                        modbits = strip(a["l"])["id"]
+        sites = cu.find_sites(fn, lambda x: x.get("k") == "bin" and x["op"] == ">>" and (strip(x["l"]) or {}).get("k") == "int"
+                              and (strip(x["l"]) or {}).get("v") == 0xFF)
+        if not sites:
+            continue
+        if emlen is None:
+            raise AnalysisBroken("C11.R5: emLen definition not recognised in %s" % fn.name)
+        rd = cu.reaching_defs(fn)
+
+        def poly(e, bid, idx, depth=0):
+            """{var id | 1: coefficient} or None"""
+            e = strip(e)
+            if e is None:
+                return None
+            k = e.get("k")
+            if k == "int":
+                return {1: e["v"]}
+            if k == "var" and "id" in e:
+                if e["id"] in (emlen, modbits):
+                    return {e["id"]: 1}
+                if depth < 3:
+                    ds = cu.defs_at(fn, rd, bid, idx, e["id"])
+                    if len(ds) == 1 and ds[0][2] in ("assign", "decl") and ds[0][3] is not None:
+                        return poly(ds[0][3], ds[0][0], ds[0][1], depth + 1)
+                return None
+            if k == "bin" and e["op"] in ("+", "-"):
+                a, b = poly(e["l"], bid, idx, depth), poly(e["r"], bid, idx, depth)
+                if a is None or b is None:
+                    return None
+                out = dict(a)
+                for kk, v in b.items():
+                    out[kk] = out.get(kk, 0) + (v if e["op"] == "+" else -v)
+                return out
+            if k == "bin" and e["op"] in ("<<", "*"):
+                a, b = poly(e["l"], bid, idx, depth), poly(e["r"], bid, idx, depth)
+                if a is None or b is None:
+                    return None
+                if set(b) <= {1}:
+                    m = b.get(1, 0)
+                    m = (1 << m) if e["op"] == "<<" else m
+                    return {kk: v * m for kk, v in a.items()}
+                if e["op"] == "*" and set(a) <= {1}:
+                    return {kk: v * a.get(1, 0) for kk, v in b.items()}
+                return None
+            return None
+        want = {emlen: 8, modbits: -1, 1: 1}
+        for (bid, idx, ln, node) in sites:
+            n += 1
+            p = poly(node["r"], bid, idx)
+            if p is not None:
+                p = {kk: v for kk, v in p.items() if v != 0}
+            ok = p == want
+            f_ = None
+            if not ok:
+                f_ = Finding(PROP, "C11.R5", fn.name, "PSS top-bit mask shift %s" % pp(strip(node["r"]))[:50],
+                             "%s:%s %s(): 0xFF >> (%s) is not 8*emLen - (modBits - 1) (RFC 8017 9.1.1 step 11 / 9.1.2 steps 6 and 9): "
+                             "the encoder and the verifier disagree with the RFC about the number of leading zero bits" % (
+                                 fn.relfile, ln, fn.name, pp(strip(node["r"]))), file=fn.relfile, line=ln)
+            res.instance("C11.R5", "%s:%s 0xFF >> %s" % (fn.name, ln, pp(strip(node["r"]))[:50]), ok, finding=f_)
+    res.floor("C11.R5", 3)
